@@ -54,6 +54,10 @@ def cond_solve_residual (self):
         cond = np.linalg.cond (Z)
     except Exception:
         cond = 1e16
+    if not np.isfinite (cond) or cond > 1e10:
+        # numerically singular system (overlapping / degenerate geometry): outside every property's domain
+        EVALS ['compute_currents.residual:skipped-ill-conditioned'] += 1
+        return
     allowed = 1e-12 * max (cond, 1.0)
     if res / nb > allowed:
         raise Contract_Broken \
